@@ -10,7 +10,7 @@ open LolHtml LolHtml.Model
 variable {κ : Type}
 
 section
-variable {env : Env κ} {inpS inpW : Bytes} {δ : Nat} {K : Nat → κ → κ → Prop} {Loc : κ → Nat → Prop}
+variable {env : Env κ} {inpS inpW : Bytes} {δ : Nat} {K : Nat → κ → κ → Prop} {Loc : κ → Nat → Nat → TextType → Prop}
 
 /-- the split lexer's `lexeme_start` (0 for the tag scanner) -/
 def lexStart : Regs → Nat
@@ -32,7 +32,7 @@ def StartsWithText : List Call → Prop
 
 theorem act_sim (F : Frame inpS inpW δ) (hops : OpsSim env.ops inpS inpW δ K Loc) (a : ActName) {d : Nat}
     {ab ab' : Ab} (habs : absAct a ab = some ab') {ms mw : M κ} (h : MRel δ d 0 ab .none ms mw)
-    (hK : K d ms.x.sink mw.x.sink) (hloc : 0 < d → Loc ms.x.sink (lexStart ms.r))
+    (hK : K d ms.x.sink mw.x.sink) (hloc : 0 < d → Loc ms.x.sink ms.x.prevConsumed (lexStart ms.r) ms.c.lastTextType)
     (hd : d = 0 ∨ a = .emitText ∨ a = .emitTextAndEof)
     (hin : readsInp a = true → (ms.c.nextPos ≤ inpS.length ∨ Closed inpS inpW δ)) :
     ActSim δ K ab' (qRequired a) (act env a inpS ms) (act env a inpW mw) := by
@@ -88,7 +88,7 @@ theorem cond_sim {ab : Ab} {d : Nat} {ms mw : M κ} (h : MRel δ d 0 ab .none ms
 /-- `action_list!` -/
 theorem runCalls_sim (F : Frame inpS inpW δ) (hops : OpsSim env.ops inpS inpW δ K Loc) :
     ∀ (cs : List Call) {d : Nat} {ab ab' : Ab}, absCalls cs ab = some ab' → ∀ {ms mw : M κ},
-    MRel δ d 0 ab .none ms mw → K d ms.x.sink mw.x.sink → (0 < d → Loc ms.x.sink (lexStart ms.r)) →
+    MRel δ d 0 ab .none ms mw → K d ms.x.sink mw.x.sink → (0 < d → Loc ms.x.sink ms.x.prevConsumed (lexStart ms.r) ms.c.lastTextType) →
     (d = 0 ∨ StartsWithText cs) →
     CallsIn inpS inpW δ ms.c.nextPos cs →
     ActSim δ K ab' true (runCalls env inpS cs ms) (runCalls env inpW cs mw) := by
@@ -224,7 +224,7 @@ theorem runSeq_none_some {inp : Bytes} {s : ActSeq} {m : M κ} {t : Trans}
 theorem runSeq_sim (F : Frame inpS inpW δ) (hops : OpsSim env.ops inpS inpW δ K Loc) (fs : FlagMap) (st : StateId)
     (loops : Bool) (s : ActSeq) {d : Nat} {ab : Ab} (hok : seqOk env.tbl fs st ab loops s = true)
     {ms mw : M κ}
-    (h : MRel δ d 0 ab .none ms mw) (hK : K d ms.x.sink mw.x.sink) (hloc : 0 < d → Loc ms.x.sink (lexStart ms.r))
+    (h : MRel δ d 0 ab .none ms mw) (hK : K d ms.x.sink mw.x.sink) (hloc : 0 < d → Loc ms.x.sink ms.x.prevConsumed (lexStart ms.r) ms.c.lastTextType)
     (hd : d = 0 ∨ StartsWithText s.calls)
     (hin : CallsIn inpS inpW δ ms.c.nextPos s.calls) :
     BodySim δ K fs st loops ms.c (runSeq env inpS s ms) (runSeq env inpW s mw) := by
@@ -289,7 +289,7 @@ theorem runSeq_sim (F : Frame inpS inpW δ) (hops : OpsSim env.ops inpS inpW δ 
 theorem runBody_sim (F : Frame inpS inpW δ) (hops : OpsSim env.ops inpS inpW δ K Loc) (fs : FlagMap) (st : StateId)
     (loops : Bool) (b : Body) {d : Nat} {ab : Ab} (hok : bodyOk env.tbl fs st ab loops b = true)
     {ms mw : M κ}
-    (h : MRel δ d 0 ab .none ms mw) (hK : K d ms.x.sink mw.x.sink) (hloc : 0 < d → Loc ms.x.sink (lexStart ms.r))
+    (h : MRel δ d 0 ab .none ms mw) (hK : K d ms.x.sink mw.x.sink) (hloc : 0 < d → Loc ms.x.sink ms.x.prevConsumed (lexStart ms.r) ms.c.lastTextType)
     (hd : d = 0 ∨ ∃ s, b = .seq s ∧ StartsWithText s.calls)
     (hin : BodyIn inpS inpW δ ms.c.nextPos b) :
     BodySim δ K fs st loops ms.c (runBody env inpS b ms) (runBody env inpW b mw) := by
